@@ -381,9 +381,12 @@ func (fr *Frame) enterLoop(li *loopInfo, ins []*State, predIdx []int) (*State, e
 		}
 		r.assume(hst, frameFormula(nw, old, entrySt.alloc, S))
 	}
-	for phi, v := range fresh {
-		_ = phi
-		r.assume(hst, r.typeInv(hst, v))
+	for _, in := range b.Instrs {
+		phi, ok := in.(*ssa.Phi)
+		if !ok {
+			break
+		}
+		r.assume(hst, r.typeInv(hst, fresh[phi]))
 	}
 	names := fr.phiNames(li, fresh, iter)
 	for _, cl := range invs {
